@@ -90,6 +90,7 @@ type End struct {
 	pendingWrites int // writes currently blocked in a stall
 	rdl, wdl      deadline
 	CloseCount    int
+	wclosed       bool // CloseWrite was called
 }
 
 // Pipe returns two connected ends. a is usually handed to the implementation.
@@ -280,6 +281,18 @@ func (e *End) Inject(segments ...[]byte) {
 // PeerFIN closes the other side: this end's Read returns EOF after the inbox
 // drains and its Writes fail with EPIPE.
 func (e *End) PeerFIN() { e.peer.Close() }
+
+// CloseWrite half-closes: the peer's Read returns EOF after its inbox drains; this end can still read.
+func (e *End) CloseWrite() {
+	p := e.peer
+	p.mu.Lock()
+	p.eof = true
+	p.signal()
+	p.mu.Unlock()
+	e.mu.Lock()
+	e.wclosed = true
+	e.mu.Unlock()
+}
 
 // Abort resets the connection: pending and future Read/Write on this end fail with ECONNRESET.
 func (e *End) Abort() {
